@@ -733,6 +733,19 @@ impl Stringify for Value {
                         _ => false,
                     }
                 }
+                // string literals only, all of them blank: as text the value would be whitespace-only
+                // and dropped when parsed again
+                fn is_blank_literals(expr: &Expression) -> bool {
+                    match expr {
+                        Expression::LitStr { value, .. } => value
+                            .trim_matches(crate::parse::is_template_whitespace)
+                            .is_empty(),
+                        Expression::Plus { left, right, .. } => {
+                            is_blank_literals(left) && is_blank_literals(right)
+                        }
+                        _ => false,
+                    }
+                }
                 fn starts_with_binding(expr: &Expression) -> bool {
                     match expr {
                         Expression::ToStringWithoutUndefined { .. } => true,
@@ -778,7 +791,9 @@ impl Stringify for Value {
                             right,
                             location,
                         } => {
-                            let split = is_text_piece(left) && is_text_piece(right);
+                            let split = is_text_piece(left)
+                                && is_text_piece(right)
+                                && !(is_whole_expr && is_blank_literals(expr));
                             if split {
                                 split_expression(
                                     &left,
